@@ -157,7 +157,7 @@ CHOICES = {
                          ["s", None, None, None, [["so", [["x", {"c": "1"}]]]]], ["s", sur(["o1", "k"]), None, None, None],
                          ["nope", sur(["o1"]), None, None, None], ["x", sur(["o1"]), None, None, None],
                          ["s", None, None, ["sf", "so"], None], ["s", sur(["o1", "o1"]), None, None, None],
-                         ["s", None, None, ["so", "time"], None], ["s", sur(["o7"], ("k",)), ["x"], ["so", "sf"], []],
+                         ["s", None, None, ["so", "time"], None], ["s", None, None, ["so", "s"], None], ["s", sur(["o7"], ("k",)), ["x"], ["so", "sf"], []],
                          ["s", None, None, None, [["sf", [["y", fn(["dp"], A(0))], ["x", fn(["time"], A(0))]]]]]],
     "remove_surrogate": [["s"], ["x"], ["so"], ["nope"]],
     "add_data": [["n1", "3"], ["dd", "3"], ["x", "3"], ["time", "1"], ["sf", "1"]],
@@ -336,6 +336,85 @@ def shadow_histories():
             mid = ([q] if q else []) + [["add_surrogate", "n2", su]] + data + qs
             yield {"ops": BASE + mid + BATTERY[-2:], "check_from": len(BASE), "stratum": "shadow",
                    "shape": f"shadow:{len(data)}"}
+
+
+def alias_histories():
+    """the caller keeps a surrogate object and passes it AGAIN (to a second `add_surrogate` with an override, back to
+    `update_surrogate`, after the model changed its own copy): the model must not have written into the caller's object,
+    so every call sees the object's original content (F-C03-12)"""
+    T = {**sur(["o1"]), "tag": "T"}
+    AL = {**sur(["o1"]), "alias": "T"}
+    tails = [["q", "names", "surouts"], ["q", "args", None, "0"], ["remove_surrogate", "n1"], ["remove_surrogate", "n2"],
+             ["add_parameter", "o1", V(1)], ["q", "eq"]]
+    bodies = {
+        "twice:outputs": [["add_surrogate", "n1", T], ["add_surrogate", "n2", AL, None, ["o2"], None]],
+        "twice:plain": [["add_surrogate", "n1", T], ["add_surrogate", "n2", AL]],
+        "override-first": [["add_surrogate", "n1", T, ["y"], ["o3"], [["o3", [["x", {"c": "1"}]]]]],
+                           ["add_surrogate", "n2", AL]],
+        "update-own-then-again": [["add_surrogate", "n1", T], ["update_surrogate", "n1", None, None, ["z1"], None],
+                                  ["add_surrogate", "n2", AL]],
+        "update-with-kept": [["add_surrogate", "n1", T], ["update_surrogate", "n1", AL, None, ["w1"], None],
+                             ["add_surrogate", "n2", AL, None, ["o2"], None]],
+        # the model edits the stoichiometries of its surrogates in place (`make_parameter_dynamic`, `remove_variable`):
+        # the kept object must not see that
+        "inplace:dynamic": [["add_surrogate", "n1", {**sur(["o1"], ("x",), "o1"), "tag": "T"}],
+                            ["make_parameter_dynamic", "k", None, [["o1", "3"]]],
+                            ["add_surrogate", "n2", {**sur(["o1"], ("x",), "o1"), "alias": "T"}, None, ["o2"], None],
+                            ["q", "stoich", ["1", "2", "3", "1"], "1"]],
+        "inplace:strip": [["add_surrogate", "n1", {**sur(["o1"], ("x",), "o1"), "tag": "T"}], ["remove_variable", "y", True],
+                          ["update_surrogate", "s", {**sur(["o1"], ("x",), "o1"), "alias": "T"}, None, ["so", "sf"], None],
+                          ["q", "stoich", ["1", "2", "3", "1"], "1"]],
+        "update-other-with-kept": [["add_surrogate", "n1", T], ["add_surrogate", "n2", sur(["o4"])],
+                                   ["update_surrogate", "n2", AL, ["y"], ["o5"], None], ["update_surrogate", "n1", AL, None, None, None]],
+    }
+    for name, body in bodies.items():
+        for q in (None, QUERIES[0]):
+            mid = body[:1] + ([q] if q else []) + body[1:] + tails
+            yield {"ops": BASE + mid + BATTERY[-2:], "check_from": len(BASE), "stratum": "alias", "shape": "alias:" + name}
+
+
+def scan_histories():
+    """how scans and control analysis use a model, without a Simulator: a working copy, then per point
+    `update_*` → queries, and the value put back at the end; `scale_parameter` up and down around a query; an
+    assignment-defined parameter overwritten by a number and restored"""
+    q_rhs, q_flux, q_init = ["q", "rhs", None, "0"], ["q", "fluxes", None, "0"], ["q", "init"]
+    q_state = ["q", "fluxes", ["2", "1", "3"], "1"]
+    pats = {
+        "scan:parameter": [o for v in ("1", "2", "1/2") for o in (["update_parameters", [["k", V(v)]]], q_rhs, q_flux)]
+        + [["update_parameters", [["k", V(3)]]], q_rhs],
+        "scan:two": [o for v in ("1", "4") for o in (["update_parameters", [["k", V(v)], ["p", V(v)]]], q_flux, ["q", "pvals"])]
+        + [["update_parameters", [["k", V(3)], ["p", V("1/2")]]], q_flux],
+        "scan:initial": [o for v in ("2", "0") for o in (["update_variables", [["x", V(v)]]], q_init, q_rhs)]
+        + [["update_variable", "x", V(1)], q_init, q_rhs],
+        "mca:scale": [["scale_parameter", "k", "2"], q_flux, ["scale_parameter", "k", "1/2"], q_flux,
+                      ["scale_parameters", [["k", "2"], ["p", "4"]]], q_state, ["scale_parameters", [["k", "1/2"], ["p", "1/4"]]],
+                      q_state, ["q", "pvals"]],
+        "mca:state": [q_state, ["update_variable", "y", V(4)], q_state, ["q", "stoich", None, "0"], ["update_variable", "y", V(2)],
+                      q_state],
+        "scan:assigned": [["update_parameter", "q", V(5)], q_rhs, ["q", "classes"],
+                          ["update_parameter", "q", {"ia": fn(["dd"], ["*", A(0), K(2)])}], q_rhs, ["q", "pvals"]],
+        "scan:unknown": [["update_parameters", [["k", V(1)], ["nope", V(2)]]], q_rhs, ["scale_parameter", "nope", "2"], q_flux],
+    }
+    pres = ([], [QUERIES[0]], [QUERIES[0], ["fork"]], [["fork"], QUERIES[2]], [QUERIES[2], ["fork", "pickle"]])
+    for name, body in pats.items():
+        for pre in pres:
+            yield {"ops": BASE + pre + body + [["q", "eq"]] + BATTERY[-2:], "check_from": len(BASE), "stratum": "scan",
+                   "shape": name}
+
+
+def readout_data_histories():
+    """readouts that name a data set, and a readout that names such a readout (since `fix: readouts can name data sets`
+    the readout pass runs on `data | args`); the data set removed / replaced afterwards"""
+    ro = [["add_readout", "rd", fn(["dd", "x"], ["+", A(0), A(1)])], ["add_readout", "rd2", fn(["rd", "dd"], ["*", A(0), A(1)])]]
+    fl = [False] + [True] * 8
+    qs = [["q", "argsro", ["2", "3", "1"], "1"], ["q", "argsf", None, "0", fl], ["q", "argstc", ROWS, fl],
+          ["q", "argnames", fl], ["q", "rhs", None, "0"]]
+    for mid in ([], [["update_data", "dd", "7"]], [["remove_data", "dd"]], [["remove_data", "dd"], ["add_parameter", "dd", V(2)]],
+                [["remove_readout", "rd"]]):
+        for q in (None, QUERIES[0]):
+            ops = ro + ([q] if q else []) + qs[:2] + mid + qs
+            yield {"ops": BASE + ops + BATTERY[-2:], "check_from": len(BASE), "stratum": "readoutdata",
+                   "shape": f"readoutdata:{mid[0][0] if mid else 'none'}"}
 
 
 def copy_histories():
@@ -685,6 +764,7 @@ def random_history(rng, length):
     for op in seed[: rng.choice([0, 2, 3, 3])]:
         ops.append(op)
         sim.apply(op)
+    kept: dict = {}
     while len(ops) < length:
         r = rng.random()
         if r < 0.03:
@@ -693,6 +773,16 @@ def random_history(rng, length):
             ops.append(rng.choice(QUERIES + BATTERY + QUERIES2))
         else:
             op = gen_mut()
+            if op[0] in ("add_surrogate", "update_surrogate") and isinstance(op[2], dict):
+                # now and then the caller keeps the surrogate object, and later passes that very object again
+                r2 = rng.random()
+                if kept and r2 < 0.15:
+                    t = rng.choice(sorted(kept))
+                    op = [op[0], op[1], {**kept[t], "alias": t}] + list(op[3:])
+                elif r2 < 0.35:
+                    t = f"T{len(kept)}"
+                    kept[t] = dict(op[2])
+                    op = [op[0], op[1], {**op[2], "tag": t}] + list(op[3:])
             ops.append(op)
             sim.apply(op)
     return {"ops": ops + BATTERY[-2:], "check_from": 0, "stratum": "random", "shape": f"random:len{(length // 5) * 5}"}
